@@ -208,7 +208,7 @@ def _parse_directive_options(
         yaml_errors: list[ParseWarnings] = []
         try:
             yaml_options = yaml.safe_load(options_block or "") or {}
-        except yaml.YAMLError:
+        except (yaml.YAMLError, ValueError):
             yaml_options = {}
             yaml_errors.append(
                 ParseWarnings(
